@@ -16,6 +16,12 @@ Translated (anything outside the grammar raises TranslateError):
         idcs = np.searchsorted(cvec, xi) - 1 ; idcs[idcs < 0] = 0 ; idcs[idcs > cvec.size - 2] = cvec.size - 2
         norm_distances.append((xi - cvec[idcs]) / (cvec[idcs + 1] - cvec[idcs]))
   * _NearestInterpolator._evaluate:  idx_res.append(np.where(yi < .5, i, i + 1))
+  * the factories: which evaluator class nearest_/linear_/per_axis_interpolator instantiate, the
+    all(s == 'nearest' ...) dispatch of per_axis_interp, interp=['linear'] * d of _LinearInterpolator
+  * odl/util/vectorization.py: is_valid_input_array, out_shape_from_array; _check_interp_input (array
+    branch): how inputs of each shape are reshaped / classified as a single point / rejected
+  * _Interpolator.__call__: the ordered `out` checks (not an array -> TypeError, wrong shape /
+    dtype -> ValueError)
 """
 import ast
 import os
@@ -311,6 +317,225 @@ def nearest_pick(fn):
             % (p.cmp(w.args[0]), p.iexpr(w.args[1]), p.iexpr(w.args[2])))
 
 
+def inner_func(top, name):
+    """The single nested function of a factory (nearest_interp / linear_interp / per_axis_interp)."""
+    if name not in top:
+        fail(None, 'function %s not found' % name)
+    inner = [n for n in top[name].body if isinstance(n, ast.FunctionDef)]
+    if len(inner) != 1:
+        fail(top[name], 'expected one nested function')
+    return inner[0]
+
+
+def ctor_call(node, allowed):
+    """`interpolator = <Class>(coord_vecs, f, [interp=interp,] input_type=x_type)` -> class name"""
+    if not (isinstance(node, ast.Assign) and txt(node.targets[0]) == 'interpolator' and isinstance(node.value, ast.Call)
+            and isinstance(node.value.func, ast.Name) and node.value.func.id in allowed):
+        fail(node, 'expected interpolator = <one of %s>(...)' % (allowed,))
+    call = node.value
+    if [txt(a) for a in call.args] != ['coord_vecs', 'f']:
+        fail(node, 'unexpected positional arguments')
+    kws = sorted((k.arg, txt(k.value)) for k in call.keywords)
+    want = [('input_type', 'x_type')] + ([('interp', 'interp')] if call.func.id == '_PerAxisInterpolator' else [])
+    if kws != sorted(want):
+        fail(node, 'unexpected keyword arguments')
+    return call.func.id
+
+
+def factories(top):
+    """Which evaluator class each public factory instantiates (and under which condition)."""
+    cls = ('_NearestInterpolator', '_LinearInterpolator', '_PerAxisInterpolator')
+    out = {}
+    for fac in ('nearest_interpolator', 'linear_interpolator'):
+        fn = inner_func(top, fac)
+        body = [s for s in fn.body if not (isinstance(s, ast.Expr) and isinstance(s.value, ast.Constant))]
+        if len(body) < 2 or txt(body[0]) != 'x,x_type,x_is_scalar=_check_interp_inputx,f':
+            fail(fn, 'unexpected start of %s' % fac)
+        out[fac] = ctor_call(body[1], cls)
+    fn = inner_func(top, 'per_axis_interpolator')
+    body = [s for s in fn.body if not (isinstance(s, ast.Expr) and isinstance(s.value, ast.Constant))]
+    if len(body) < 2 or txt(body[0]) != 'x,x_type,x_is_scalar=_check_interp_inputx,f' or not isinstance(body[1], ast.If):
+        fail(fn, 'unexpected start of per_axis_interp')
+    node = body[1]
+    t = node.test
+    if not (isinstance(t, ast.Call) and isinstance(t.func, ast.Name) and t.func.id in ('all', 'any') and len(t.args) == 1
+            and isinstance(t.args[0], ast.GeneratorExp) and len(t.args[0].generators) == 1
+            and txt(t.args[0].generators[0].target) == 's' and txt(t.args[0].generators[0].iter) == 'interp'
+            and not t.args[0].generators[0].ifs):
+        fail(t, 'expected all/any(<test on s> for s in interp)')
+    e = t.args[0].elt
+    if not (isinstance(e, ast.Compare) and txt(e.left) == 's' and len(e.ops) == 1 and isinstance(e.ops[0], (ast.Eq, ast.NotEq))
+            and isinstance(e.comparators[0], ast.Constant) and e.comparators[0].value in ('nearest', 'linear')):
+        fail(e, "expected s ==/!= 'nearest'/'linear'")
+    if len(node.body) != 1 or len(node.orelse) != 1:
+        fail(node, 'expected one constructor call per branch')
+    then_c, else_c = ctor_call(node.body[0], cls), ctor_call(node.orelse[0], cls)
+    quant = 'forallb' if t.func.id == 'all' else 'existsb'
+    which = {'nearest': 'SNearest', 'linear': 'SLinear'}[e.comparators[0].value]
+    eq = isinstance(e.ops[0], ast.Eq)
+    test = '%s (fun s => match s with %s => %s | _ => %s end) ss' % (quant, which, 'true' if eq else 'false',
+                                                                   'false' if eq else 'true')
+    out['per_axis'] = (test, then_c, else_c)
+    return out
+
+
+def linear_schemes(top):
+    """_LinearInterpolator.__init__: interp=['linear'] * len(coord_vecs)"""
+    if '_LinearInterpolator' not in top:
+        fail(None, 'class _LinearInterpolator not found')
+    init = [n for n in top['_LinearInterpolator'].body if isinstance(n, ast.FunctionDef) and n.name == '__init__']
+    if len(init) != 1:
+        fail(top['_LinearInterpolator'], 'no __init__')
+    body = [s for s in init[0].body if not (isinstance(s, ast.Expr) and isinstance(s.value, ast.Constant))]
+    if len(body) != 1 or txt(body[0]) != "super_LinearInterpolator,self.__init__coord_vecs,values,input_type,interp=['linear']*lencoord_vecs":
+        fail(init[0], 'unexpected _LinearInterpolator.__init__')
+    if [b.id for b in top['_LinearInterpolator'].bases if isinstance(b, ast.Name)] != ['_PerAxisInterpolator']:
+        fail(top['_LinearInterpolator'], 'unexpected base class')
+    return 'SLinear'
+
+
+def out_checks(fn):
+    """_Interpolator.__call__:  if out is not None: (if COND: raise Err)*  -> ordered decision list"""
+    blocks = [s for s in fn.body if isinstance(s, ast.If) and txt(s.test) == 'outisnotNone']
+    if len(blocks) != 1:
+        fail(fn, 'expected one `if out is not None` block')
+    conds = {'notisinstanceout,np.ndarray': 'negb is_array', 'out.shape!=out_shape': 'negb shape_ok',
+             'out.dtype!=self.values.dtype': 'negb dtype_ok'}
+    errs = {'TypeError': 'ETypeErr', 'ValueError': 'EValueErr'}
+    lines = []
+    for s in blocks[0].body:
+        if not (isinstance(s, ast.If) and not s.orelse and len(s.body) == 1 and isinstance(s.body[0], ast.Raise)
+                and isinstance(s.body[0].exc, ast.Call) and isinstance(s.body[0].exc.func, ast.Name)):
+            fail(s, 'expected `if COND: raise Err(...)`')
+        c, e = txt(s.test), s.body[0].exc.func.id
+        if c not in conds or e not in errs:
+            fail(s, 'condition or error class outside grammar')
+        lines.append('  if %s then Some %s else' % (conds[c], errs[e]))
+    return ('Definition gen_out_check (is_array shape_ok dtype_ok : bool) : option errkind :=\n%s\n  None.\n'
+            % '\n'.join(lines))
+
+
+# ---------------------------------------------------------------- input conventions
+VSRC = 'odl/util/vectorization.py'
+
+
+def shape_atom(n, xname, extra):
+    """Integer-valued atoms of the shape tests."""
+    u = txt(n)
+    table = {xname + '.ndim': 'length xshape', xname + '.size': 'prodn xshape',
+             xname + '.shape[0]': 'nth 0%nat xshape 0%nat', xname + '.shape[1]': 'nth 1%nat xshape 0%nat'}
+    table.update(extra)
+    if u in table:
+        return '(%s)' % table[u]
+    if isinstance(n, ast.Constant) and isinstance(n.value, int) and not isinstance(n.value, bool) and n.value >= 0:
+        return '%d%%nat' % n.value
+    fail(n, 'integer atom outside grammar')
+
+
+def shape_tuple(n, xname, extra):
+    """A literal shape: () or (a,) or (a, b)"""
+    if not isinstance(n, ast.Tuple):
+        fail(n, 'expected a tuple')
+    return '[%s]' % '; '.join(shape_atom(e, xname, extra) for e in n.elts)
+
+
+def shape_test(n, xname, extra):
+    """Boolean tests on shapes: and / or of comparisons (==, >) between integer atoms or x.shape == tuple."""
+    if isinstance(n, ast.BoolOp):
+        op = ' && ' if isinstance(n.op, ast.And) else ' || '
+        return '(%s)' % op.join(shape_test(v, xname, extra) for v in n.values)
+    if isinstance(n, ast.Compare) and len(n.ops) == 1:
+        l, r, op = n.left, n.comparators[0], n.ops[0]
+        if txt(l) == 'ndim' and isinstance(op, ast.Is) and txt(r) == 'None':
+            return 'false'                        # ndim is always given by the callers modelled here
+        if txt(l) == xname + '.shape' and isinstance(op, ast.Eq):
+            return '(nats_eqb xshape %s)' % shape_tuple(r, xname, extra)
+        a, b = shape_atom(l, xname, extra), shape_atom(r, xname, extra)
+        if isinstance(op, ast.Eq):
+            return '(%s =? %s)%%nat' % (a, b)
+        if isinstance(op, ast.Gt):
+            return '(%s <? %s)%%nat' % (b, a)
+    fail(n, 'shape test outside grammar')
+
+
+def valid_input_array(vtop):
+    fn = vtop.get('is_valid_input_array')
+    if fn is None or [a.arg for a in fn.args.args] != ['x', 'ndim']:
+        fail(fn, 'is_valid_input_array(x, ndim) not found')
+    body = [s for s in fn.body if not (isinstance(s, ast.Expr) and isinstance(s.value, ast.Constant))]
+    if len(body) != 2 or txt(body[0]) != 'try:\nx=np.asarrayx\nexceptValueError:\nreturnFalse' or not isinstance(body[1], ast.If):
+        fail(fn, 'unexpected body of is_valid_input_array')
+    node = body[1]
+    if not (len(node.body) == 1 and isinstance(node.body[0], ast.Return) and len(node.orelse) == 1
+            and isinstance(node.orelse[0], ast.Return)):
+        fail(node, 'expected if T: return E else: return E')
+    ex = {'ndim': 'ndim'}
+    return ('Definition gen_is_valid_input_array (xshape : list nat) (ndim : nat) : bool :=\n'
+            '  if %s then %s else %s.\n'
+            % (shape_test(node.test, 'x', ex), shape_test(node.body[0].value, 'x', ex),
+               shape_test(node.orelse[0].value, 'x', ex)))
+
+
+def out_shape_from_array(vtop):
+    fn = vtop.get('out_shape_from_array')
+    body = [s for s in fn.body if not (isinstance(s, ast.Expr) and isinstance(s.value, ast.Constant))] if fn else []
+    if len(body) != 2 or txt(body[0]) != 'arr=np.asarrayarr' or not isinstance(body[1], ast.If):
+        fail(fn, 'unexpected body of out_shape_from_array')
+    node = body[1]
+    if not (txt(node.body[0]) == 'returnarr.shape' and len(node.orelse) == 1 and isinstance(node.orelse[0], ast.Return)):
+        fail(node, 'unexpected branches of out_shape_from_array')
+    return ('Definition gen_out_shape_from_array (xshape : list nat) : list nat :=\n  if %s then xshape else %s.\n'
+            % (shape_test(node.test, 'arr', {}), shape_tuple(node.orelse[0].value, 'arr', {})))
+
+
+def check_interp_input(top):
+    """The array branch of _check_interp_input: how a non-meshgrid input is reshaped, whether it denotes a
+    single point, and when it is rejected."""
+    fn = top.get('_check_interp_input')
+    if fn is None:
+        fail(None, '_check_interp_input not found')
+    ifs = [s for s in fn.body if isinstance(s, ast.If)]
+    if len(ifs) != 1 or txt(ifs[0].test) != 'is_valid_input_meshgridx,f.ndim':
+        fail(fn, 'expected if is_valid_input_meshgrid(x, f.ndim): ... else: ...')
+    if [txt(s) for s in ifs[0].body] != ['x_is_scalar=False', "x_type='meshgrid'"]:
+        fail(ifs[0], 'unexpected meshgrid branch')
+    els = ifs[0].orelse
+    if len(els) != 4 or txt(els[0]) != 'x=np.asarrayx' or not isinstance(els[1], ast.If) or \
+            txt(els[3]) != "x_type='array'" or not isinstance(els[2], ast.If):
+        fail(ifs[0], 'unexpected array branch')
+    if not (txt(els[2].test) == 'notis_valid_input_arrayx,f.ndim' and isinstance(els[2].body[-1], ast.Raise)
+            and txt(els[2].body[-1].exc) in ('ValueErrorerrmsg',) and not els[2].orelse):
+        fail(els[2], 'expected `if not is_valid_input_array(x, f.ndim): ... raise ValueError(errmsg)`')
+    ex = {'f.ndim': 'fndim'}
+    node, arms = els[1], []
+    while True:
+        def arm(body):
+            d = {}
+            for st in body:
+                u = txt(st)
+                if u in ('x_is_scalar=True', 'x_is_scalar=False'):
+                    d['scalar'] = 'true' if u.endswith('True') else 'false'
+                elif (isinstance(st, ast.Assign) and txt(st.targets[0]) == 'x' and isinstance(st.value, ast.Call)
+                      and txt(st.value.func) == 'x.reshape' and len(st.value.args) == 1):
+                    d['shape'] = shape_tuple(st.value.args[0], 'x', ex)
+                else:
+                    fail(st, 'statement outside grammar in _check_interp_input')
+            if 'scalar' not in d:
+                fail(body[0], 'x_is_scalar not set')
+            return '(%s, %s)' % (d.get('shape', 'xshape'), d['scalar'])
+        arms.append((shape_test(node.test, 'x', ex), arm(node.body)))
+        if len(node.orelse) == 1 and isinstance(node.orelse[0], ast.If):
+            node = node.orelse[0]
+        else:
+            last = arm(node.orelse)
+            break
+    chain = ''.join('    if %s then %s else\n' % a for a in arms) + '    %s' % last
+    return ('(* None = ValueError; Some (shape after reshaping, input denotes a single point) *)\n'
+            'Definition gen_check_array_input (fndim : nat) (xshape : list nat) : option (list nat * bool) :=\n'
+            '  let r :=\n%s in\n'
+            '  if negb (gen_is_valid_input_array (fst r) fndim) then None else Some r.\n' % chain)
+
+
 def translate():
     path = os.path.join(REPO, SRC)
     tree = ast.parse(open(path).read())
@@ -332,6 +557,7 @@ def translate():
     out = ['(* GENERATED by translate/interp_weights.py from %s -- do not edit *)' % SRC,
            'From Coq Require Import ZArith QArith List Bool.',
            'From Verif Require Import Base.Num C15.Syntax.',
+           'Import ListNotations.',
            'Local Open Scope num_scope.', '']
     for py, cq in names.items():
         out.append(weights_fn(top[py], cq))
@@ -339,4 +565,25 @@ def translate():
                '  match s with SNearest => %s | SLinear => %s end.\n' % (names[table['nearest']], names[table['linear']]))
     out.append(find_indices(method('_Interpolator', '_find_indices')))
     out.append(nearest_pick(method('_NearestInterpolator', '_evaluate')))
+    # which evaluator serves which factory
+    fac = factories(top)
+    if fac['nearest_interpolator'] != '_NearestInterpolator' or fac['linear_interpolator'] != '_LinearInterpolator':
+        fail(None, 'nearest_/linear_interpolator instantiate an unexpected class')
+    test, then_c, else_c = fac['per_axis']
+    kinds = {'_NearestInterpolator': 'true', '_PerAxisInterpolator': 'false'}
+    if then_c not in kinds or else_c not in kinds:
+        fail(None, 'per_axis_interpolator instantiates an unexpected class')
+    out.append('(* per_axis_interpolator: true = served by the index-based _NearestInterpolator,\n'
+               '   false = by the arithmetic _PerAxisInterpolator *)\n'
+               'Definition gen_peraxis_index_based (ss : list scheme) : bool :=\n  if %s then %s else %s.\n'
+               % (test, kinds[then_c], kinds[else_c]))
+    out.append('(* linear_interpolator = per-axis evaluation with this scheme on every axis *)\n'
+               'Definition gen_linear_scheme : scheme := %s.\n' % linear_schemes(top))
+    out.append(out_checks(method('_Interpolator', '__call__')))
+    # input conventions (odl/util/vectorization.py + _check_interp_input)
+    vtree = ast.parse(open(os.path.join(REPO, VSRC)).read())
+    vtop = {n.name: n for n in vtree.body if isinstance(n, ast.FunctionDef)}
+    out.append(valid_input_array(vtop))
+    out.append(out_shape_from_array(vtop))
+    out.append(check_interp_input(top))
     return '\n'.join(out)
